@@ -402,12 +402,17 @@ def history_lines(rng, tier):
         cs = g(rng, 'quick')
         rng.shuffle(cs)
         pool.append(cs)
+    gl = gens.gen_C16_globals(rng, tier)
+    rng.shuffle(gl)
+    pool.append(gl)
+    pool.append(gl)
     n_hist = 12 if tier == 'quick' else 120
     hist = []
     for h in range(n_hist):
         ln = rng.randrange(10, 60)
         cs = [rng.choice(rng.choice(pool)) for _ in range(ln)]
         hist.append(cs)
+    hist.append(list(gl))
     return hist
 
 
